@@ -64,6 +64,8 @@ def gen_scenario(rng, component=None, kinds=('int', 'str', 'str', 'tuple', 'fd')
             problem = dict(type='mdp', spec=spec)
             if rng.random() < 0.4:
                 problem['dist'] = 'mixture'      # transition distributions written as scaled point masses mixed with `|`
+            if rng.random() < 0.5:
+                problem['alias'] = rng.choice(('cached', 'shared', 'tuple'))     # what the model's actions() hands out (see make_mdp)
         if comp in ('qlearning', 'sarsa', 'expectedsarsa', 'doubleq'):
             params = dict(episodes=rng.randint(1, 4), rand_choose=rng.choice((0.1, 0.5)), step_size=0.5, softmax_temp=rng.choice((0.0, 1.0)))
         elif comp == 'rmax':
@@ -150,7 +152,7 @@ def build_domain(name, ctx=None):
 def build_problem(problem, ctx=None):
     t = problem['type']
     if t == 'mdp':
-        return make_mdp(MDPView(problem['spec']), ctx, dist=problem.get('dist', 'dict'))
+        return make_mdp(MDPView(problem['spec']), ctx, dist=problem.get('dist', 'dict'), alias=problem.get('alias', 'fresh'))
     if t == 'graph':
         return make_graph_mdp(GraphView(problem['spec']), problem['rep'])
     if t == 'pomdp':
